@@ -648,6 +648,8 @@ def m_zdec_new(I, path, args):
 def m_json_from_reader(I, path, args):
     r = args[0]
     b = r.fields[0]
+    if isinstance(b, (PyVec, PySlice)) and len(b.items) == 1 and isinstance(b.items[0], Bytes):
+        b = b.items[0]
     if isinstance(b, Bytes) and b.tag == 'zlib':
         ga = generic_args(path)
         ty = ga[-1][-1] if ga else ''
